@@ -1,4 +1,3 @@
 package main
 
 func answerCryptoOracle(c *Ctx, kind string, args []string) string { return "0" }
-func sitesMain(args []string)                                 {}
